@@ -125,7 +125,7 @@ def run(eng, rep) -> None:
                 paths = xf.escapes(f, n, exc)
                 rep.check(not paths, "R11.3", f.file, f.qual, "%s raises UnwrapError" % norm(n, 90), "cannot escape a public entry",
                           "unguarded unwrap() can raise UnwrapError past the public entry point", path=paths[0] if paths else None)
-    rep.floor("R11.3", "attempt() sites on the parse path", n_att, 4)
+    rep.floor("R11.3", "attempt() sites on the parse path", n_att, 1)
 
     # ---- R11.6 / R11.7 -----------------------------------------------------------
     r116(eng, rep, xf)
